@@ -8,7 +8,7 @@ MODULE = "Noise"
 def run(ctx):
     ctx.notes["rule"] = ("behaviours = (df*dt in {1, 1.4, 1.5, 1.6, 2, 2.5, 2.7, 51}, dt in {1, 1.5, 2}, tchans) x sequences of add_noise (chi2 / gaussian / "
                          "truncated) / add_noise_from_obs (shared or separate index, identity tables or the built-in tables) / zero_data / add_signal / "
-                         "SNR queries / stream and background add_noise, drawn by TLC from Noise.tla; frames of 60000 pixels; "
+                         "SNR queries / stream and background add_noise, user-defined sources and update_noise, drawn by TLC from Noise.tla; frames of 60000 pixels at intensity scales 1, 4e6, 1e-3, 1e-10; "
                          "distinct = distinct behaviours")
     ctx.assume("statistical claims: sample mean and variance of every added noise array within 6.5 standard errors of the "
                "mean / variance named by the spec (chi2: x_mean, 2 x_mean^2 / k; standard errors from the sample's fourth "
@@ -19,7 +19,7 @@ def run(ctx):
     res = tlc.run(MODULE, cfg, ctx.outdir, workers=8, coverage=True)
     ctx.add_tlc(res, "Noise_MC MaxOps=%d" % ops, "M")
     ctx.tlc_violation(res, MODULE, "Noise_MC")
-    for a in ("NoiseStep", "AddNoiseFromObs", "ZeroData", "AddSignal", "QuerySnr", "StreamAddNoise", "BgAddNoise"):
+    for a in ("NoiseStep", "AddNoiseFromObs", "ZeroData", "AddSignal", "QuerySnr", "StreamAddNoise", "BgAddNoise", "StreamAddSource", "StreamUpdateNoise", "BgAddSource", "BgUpdateNoise"):
         if res.coverage.get(a, (0, 0))[1] == 0:
             raise RuntimeError("vacuity: action %s never taken" % a)
     depth, num = ctx.pick(7, 9), ctx.pick(280, 6000)
@@ -36,12 +36,13 @@ def run(ctx):
         if len(ctx.samples) < 2:
             ctx.sample({"leg": "R", "geo": beh["geo"], "k": beh["k"], "actions": [s["act"] for s in steps],
                         "expected_estimates": [s["est"] for s in steps]})
-        for fn in (ad.replay_frame, ad.replay_streams):
+        scale = ad.SCALES[(n + ctx.seed) % len(ad.SCALES)]
+        for fn in (lambda b, sd: ad.replay_frame(b, sd, scale), ad.replay_streams):
             d = fn(beh, ctx.seed + n)
             if d is not None:
                 act = steps[min(d.step, len(steps) - 1)]["act"]
                 args = dict(act)
-                args.update({"dfdt10": beh["geo"]["dfdt10"], "dt2": beh["geo"]["dt2"], "T": beh["geo"]["T"], "action": act["name"], "field": d.field.split("[")[0]})
+                args.update({"scale": scale, "dfdt10": beh["geo"]["dfdt10"], "dt2": beh["geo"]["dt2"], "T": beh["geo"]["T"], "action": act["name"], "field": d.field.split("[")[0]})
                 ctx.violation(MODULE, "replay:" + d.field.split("[")[0], args,
                               {"geo": beh["geo"], "actions": [s["act"] for s in steps[:d.step + 1]], "field": d.field,
                                "expected": d.expected, "observed": d.observed})
